@@ -27,6 +27,8 @@ const (
 //
 //	npm:   M.m.p[-(alpha|beta|rc)[.N]]
 //	Maven: M.m[.p][-(alpha|beta|rc)[-N]]       (M.m is M.m.0)
+//	Maven flavours (GenConfig.MavenFlavours): M.m[.p] followed by one of
+//	       -SNAPSHOT | -M<N> | -(alpha|beta|rc)<N> | .Final | -jre
 //
 // on which major/minor/patch and the order are unambiguous in both ecosystems.
 type Ver struct {
@@ -34,6 +36,46 @@ type Ver struct {
 	Pre                 int  // 0 release, 1 alpha, 2 beta, 3 rc
 	PreNum              int  // 0 none, else N >= 1
 	Short               bool // Maven only: rendered with two components (Patch must be 0)
+	// Flav (Maven only) is one of the Flav* qualifier flavours; it excludes Pre != 0.
+	Flav int
+	// Tight (Maven only, Pre != 0, PreNum >= 1): the number follows the qualifier without a
+	// hyphen ("-rc1"), which Maven reads as "-rc-1".
+	Tight bool
+}
+
+// Qualifier flavours of Maven versions beyond alpha/beta/rc. Maven's order of the qualifiers
+// of one numeric triple (ComparableVersion) is
+//
+//	alpha < beta < milestone < rc < snapshot < "" = final < (unknown qualifiers, e.g. jre)
+const (
+	FlavNone      = iota
+	FlavSnapshot  // -SNAPSHOT
+	FlavMilestone // -M<PreNum>, PreNum >= 1
+	FlavFinal     // .Final: the release itself, spelled the JBoss way
+	FlavJre       // -jre: an unknown qualifier, sorts after the release
+)
+
+// IsRelease reports whether the version is a plain release (no pre-release, no flavour).
+func (v Ver) IsRelease() bool { return v.Pre == 0 && v.Flav == FlavNone }
+
+// FlavourName names the qualifier flavour of a version for class counters ("" for a plain
+// release).
+func (v Ver) FlavourName() string {
+	switch {
+	case v.Flav == FlavSnapshot:
+		return "snapshot"
+	case v.Flav == FlavMilestone:
+		return "milestone"
+	case v.Flav == FlavFinal:
+		return "final"
+	case v.Flav == FlavJre:
+		return "jre"
+	case v.Pre != 0 && v.Tight:
+		return preNames[v.Pre] + "N"
+	case v.Pre != 0:
+		return "prerelease"
+	}
+	return ""
 }
 
 var preNames = []string{"", "alpha", "beta", "rc"}
@@ -44,12 +86,27 @@ func (v Ver) Render(system string) string {
 	if !(system == Maven && v.Short && v.Patch == 0) {
 		s += "." + strconv.Itoa(v.Patch)
 	}
+	if system == Maven {
+		switch v.Flav {
+		case FlavSnapshot:
+			return s + "-SNAPSHOT"
+		case FlavMilestone:
+			return s + "-M" + strconv.Itoa(v.PreNum)
+		case FlavFinal:
+			return s + ".Final"
+		case FlavJre:
+			return s + "-jre"
+		}
+	}
 	if v.Pre != 0 {
 		s += "-" + preNames[v.Pre]
 		if v.PreNum > 0 {
-			if system == Maven {
+			switch {
+			case system == Maven && v.Tight:
+				s += strconv.Itoa(v.PreNum)
+			case system == Maven:
 				s += "-" + strconv.Itoa(v.PreNum)
-			} else {
+			default:
 				s += "." + strconv.Itoa(v.PreNum)
 			}
 		}
@@ -57,7 +114,7 @@ func (v Ver) Render(system string) string {
 	return s
 }
 
-var verRE = regexp.MustCompile(`^(\d+)\.(\d+)(?:\.(\d+))?(?:-(alpha|beta|rc)(?:[.-](\d+))?)?$`)
+var verRE = regexp.MustCompile(`^(\d+)\.(\d+)(?:\.(\d+))?(?:-(alpha|beta|rc)(?:([.-]?)(\d+))?|-(SNAPSHOT)|-M([1-9]\d*)|\.(Final)|-(jre))?$`)
 
 // ParseVer parses a version of the generated grammar (either spelling).
 func ParseVer(s string) (Ver, bool) {
@@ -81,8 +138,20 @@ func ParseVer(s string) (Ver, bool) {
 	case "rc":
 		v.Pre = 3
 	}
-	if m[5] != "" {
-		v.PreNum, _ = strconv.Atoi(m[5])
+	if m[6] != "" {
+		v.PreNum, _ = strconv.Atoi(m[6])
+		v.Tight = m[5] == ""
+	}
+	switch {
+	case m[7] != "":
+		v.Flav = FlavSnapshot
+	case m[8] != "":
+		v.Flav = FlavMilestone
+		v.PreNum, _ = strconv.Atoi(m[8])
+	case m[9] != "":
+		v.Flav = FlavFinal
+	case m[10] != "":
+		v.Flav = FlavJre
 	}
 	return v, true
 }
@@ -98,7 +167,9 @@ func sgn(a, b int) int {
 }
 
 // Compare is the reference order: numeric triple, then pre-release < release, then
-// alpha < beta < rc, then the pre-release number (none < 1 < 2 ...).
+// alpha < beta < rc, then the pre-release number (none < 1 < 2 ...). With the Maven flavours:
+// alpha < beta < milestone < rc < snapshot < release = .Final < -jre (cross-checked against
+// the Maven reference comparator of internal/vergram by Index and by the self-tests).
 func (v Ver) Compare(o Ver) int {
 	if c := sgn(v.Major, o.Major); c != 0 {
 		return c
@@ -110,10 +181,17 @@ func (v Ver) Compare(o Ver) int {
 		return c
 	}
 	rank := func(x Ver) int {
-		if x.Pre == 0 {
-			return 99
+		switch {
+		case x.Flav == FlavMilestone:
+			return 25
+		case x.Flav == FlavSnapshot:
+			return 40
+		case x.Flav == FlavJre:
+			return 100
+		case x.Pre != 0:
+			return 10 * x.Pre
 		}
-		return x.Pre
+		return 99 // release, .Final
 	}
 	if c := sgn(rank(v), rank(o)); c != 0 {
 		return c
@@ -157,7 +235,7 @@ func Classify(a, b Ver) DiffClass {
 		return DiffMinor
 	case a.Patch != b.Patch:
 		return DiffPatch
-	case a.Pre != b.Pre || a.PreNum != b.PreNum:
+	case a.Pre != b.Pre || a.PreNum != b.PreNum || a.Flav != b.Flav:
 		return DiffSub
 	}
 	return DiffSame
